@@ -668,3 +668,57 @@ Section Proofs.
         * apply X; auto. eapply pending_in; eauto.
   Qed.
 End Proofs.
+
+Section MultiProofs.
+  Variable cl : bool.
+  Variable tfd : fd.
+  Notation frag_trace := (frag_trace cl tfd).
+
+  (* any number of failing calls, at most one (the first) per fragment *)
+  Lemma mfm_prefix : forall frs e ks j st, scen_ok frs st ->
+    let st' := run (firstn j (mfm_trace cl tfd frs e ks)) st in
+    fs_wf st' /\ untouched frs st st' /\ shape frs st st' /\ (e = true -> all_old frs st st').
+  Proof.
+    induction frs as [|f r IH]; intros e ks j st S st'; set (k := match ks with k0 :: _ => k0 | [] => None end).
+    - unfold st'. simpl. rewrite firstn_nil. simpl.
+      destruct S as (W & _). split; [exact W|]. split; [intros q _; reflexivity|]. split; [exact I|]. intros _ g [].
+    - destruct (scen_ok_inv _ _ _ S) as (W & Hn & Hd & G).
+      unfold st'. simpl mfm_trace. fold k. set (A := frag_trace f e k).
+      fold (mflag f e k).
+      destruct (Nat.le_gt_cases j (length A)) as [Hj | Hj].
+      + rewrite firstn_app_le by auto.
+        destruct (frag_prefix cl tfd f e k j st W Hn Hd) as (W' & U & D3 & D4 & D5). fold A in W', U, D3, D4, D5.
+        set (s := run (firstn j A) st) in *.
+        assert (OR : all_old r st s).
+        { intros g Hg. destruct (G g Hg) as (X1 & X2 & _). apply U; auto. }
+        split; [exact W'|]. split; [|split].
+        * intros q Hq. destruct (Hq f (or_introl eq_refl)). apply U; auto.
+        * simpl. destruct D3 as [D3 | (M & D3)].
+          -- right. intros g [Hg | Hg]; subst; auto.
+          -- left. split; auto. now apply all_old_shape.
+        * intros He. assert (M : mflag f e k = true) by (unfold mflag; rewrite He; reflexivity).
+          intros g [Hg | Hg]; subst; auto.
+      + rewrite firstn_app_ge by lia. rewrite run_app.
+        destruct (frag_prefix cl tfd f e k (length A) st W Hn Hd) as (W1 & U1 & _ & D4 & D5). fold A in W1, U1, D4, D5.
+        rewrite firstn_all in W1, U1, D4, D5.
+        set (st1 := run A st) in *.
+        assert (S1 : scen_ok r st1) by (eapply scen_ok_tail; eauto).
+        destruct (IH (mflag f e k) (tl ks) (j - length A) st1 S1) as (W' & U' & S' & O').
+        set (s := run (firstn (j - length A) (mfm_trace cl tfd r (mflag f e k) (tl ks))) st1) in *.
+        assert (F1 : lookup s (fpath f) = lookup st1 (fpath f)).
+        { apply U'. intros g Hg. destruct (G g Hg) as (X1 & X2 & X3 & X4). split; congruence. }
+        assert (R1 : forall g, In g r -> lookup st1 (fpath g) = lookup st (fpath g)).
+        { intros g Hg. destruct (G g Hg) as (X1 & X2 & _). apply U1; auto. }
+        assert (OLD : mflag f e k = true -> all_old (f :: r) st s).
+        { intros M g [Hg | Hg]; subst.
+          - rewrite F1. auto.
+          - rewrite (O' M g Hg). auto. }
+        split; [exact W'|]. split; [|split].
+        * intros q Hq. destruct (Hq f (or_introl eq_refl)).
+          rewrite U'; [apply U1; auto|]. intros g Hg. apply Hq. now right.
+        * simpl. destruct (mflag f e k) eqn:M.
+          -- right. auto.
+          -- left. split; [rewrite F1; apply D5; auto|]. eapply shape_ext; eauto.
+        * intros He. apply OLD. unfold mflag. rewrite He. reflexivity.
+  Qed.
+End MultiProofs.
